@@ -132,6 +132,19 @@ def check_split_data(data, ratios, random_state=42, mode="partition"):
             if not differs:
                 viols.append(("split_data: the shuffle does not depend on random_state",
                               "seeds %s and %s give the same order for every environment with n>=10" % (random_state, list(OTHER_SEEDS))))
+        # "changes with it": distinct seeds (0 and the default 42 included) give pairwise different assignments on an environment with
+        # n >= 10 rows (10! orders: a coincidence between two honest seeds has probability < 3e-7)
+        orders = {}
+        for s in dict.fromkeys((random_state, 0, 42, 1) + OTHER_SEEDS):
+            st4, r4 = C.call(U.split_data, data, ratios, s)
+            calls += 1
+            if st4 == "exc":
+                continue
+            key = b"".join(np.concatenate([r4[i][e] for i in range(len(ratios))], axis=0).tobytes() for e, sample in enumerate(data) if len(sample) >= 10)
+            if key in orders:
+                viols.append(("split_data: two different seeds give the same assignment", "random_state=%s and random_state=%s" % (orders[key], s)))
+                break
+            orders[key] = s
     return calls, viols
 
 
